@@ -63,10 +63,15 @@ func writeEntry(t *Table, entry kv.Entry) {
 	if t.size == 0 {
 		t.startKey = entry.Key()
 		t.startSeqNum = entry.SeqNum()
+		t.endSeqNum = entry.SeqNum()
 	}
 	// Set ending entry values
 	t.endKey = entry.Key()
-	t.endSeqNum = entry.SeqNum()
+
+	// Entries arrive in key order, not in sequence number order, so the
+	// sequence number bounds are the smallest and largest ones seen.
+	t.startSeqNum = min(t.startSeqNum, entry.SeqNum())
+	t.endSeqNum = max(t.endSeqNum, entry.SeqNum())
 
 	// Add to metadata
 	t.searchIndex.IndexOffset(t.size)
